@@ -33,6 +33,11 @@ func (e *env) fresh(r *eng.Rand, level, logSlots, gapL, gapB int) (t *tvec, err 
 	case "ckks":
 		pt = ckks.NewPlaintext(e.ck, level)
 		pt.LogDimensions = ring.Dimensions{Rows: 0, Cols: logSlots}
+		// the scale is metadata the operations must carry over: do not always use the default one
+		// (kept within [scale/2, scale] so that the noise and overflow budgets stay valid)
+		if r.N(3) == 0 {
+			pt.Scale = rlwe.NewScale(math.Exp2(float64(e.cfg.LogScale)) * (0.5 + 0.5*r.F64()))
+		}
 		s := 1 << logSlots
 		if e.cfg.Ring == "ci" {
 			v := make([]float64, s)
@@ -54,6 +59,9 @@ func (e *env) fresh(r *eng.Rand, level, logSlots, gapL, gapB int) (t *tvec, err 
 	case "bgv":
 		t.rows = 2
 		pt = bgv.NewPlaintext(e.bg, level)
+		if r.N(3) == 0 {
+			pt.Scale = e.bg.NewScale(1 + r.U64()%(e.cfg.T-1))
+		}
 		t.uv = make([]uint64, e.N)
 		cols := e.N / 2
 		for i := range t.uv {
@@ -77,6 +85,7 @@ func (e *env) fresh(r *eng.Rand, level, logSlots, gapL, gapB int) (t *tvec, err 
 	if t.ct, err = e.enc.EncryptNew(pt); err != nil {
 		return nil, fmt.Errorf("encrypt: %w", err)
 	}
+	e.inMeta = t.ct.MetaData.CopyNew()
 	if e.cfg.Scheme == "ckks" {
 		if t.cv, err = e.decodeC(t.ct); err != nil {
 			return nil, err
@@ -118,10 +127,15 @@ const maxTol = 1.0 / 128
 // checkPhase compares the phase of ctOut with model(phase(ctIn) truncated to ctOut's level): the centred
 // difference must be within bound. Also checks the output level and that the metadata was carried over.
 func (e *env) checkPhase(c *eng.Ctx, api string, ctIn, ctOut *rlwe.Ciphertext, wantLevel int, model func(ph ring.Poly, r *ring.Ring) ring.Poly, bound float64, what func() string) bool {
-	if !c.Check(ctOut.Level() == wantLevel, "C11|"+api+"|wrong-level", func() string {
-		return fmt.Sprintf("%s: output level %d, expected min(in,out)=%d", what(), ctOut.Level(), wantLevel)
+	// The level rule min(in,out) is implementation behaviour, not part of the property (a plain copy
+	// keeps the input level): only require a level at which the input is defined, and count the rest.
+	if !c.Check(ctOut.Level() <= ctIn.Level() && ctOut.Level() >= 0, "C11|"+api+"|output-level-above-input", func() string {
+		return fmt.Sprintf("%s: output level %d, input level %d", what(), ctOut.Level(), ctIn.Level())
 	}) {
 		return false
+	}
+	if ctOut.Level() != wantLevel {
+		c.Count("outputs_not_at_min_level", 1)
 	}
 	c.Check(ctOut.MetaData != nil && ctOut.MetaData.Equal(ctIn.MetaData), "C11|"+api+"|metadata-not-carried", func() string {
 		return fmt.Sprintf("%s: in=%+v out=%+v", what(), ctIn.MetaData, ctOut.MetaData)
@@ -132,8 +146,13 @@ func (e *env) checkPhase(c *eng.Ctx, api string, ctIn, ctOut *rlwe.Ciphertext, w
 	got := obs.Phase(e.rp, &ctOut.Element, e.sk)
 	st := obs.Stat(obs.Diff(r, got, exp))
 	c.Count("phase_comparisons", 1)
-	c.Max("max_opnoise_log2_x10", int64(10*st.MaxLog2))
-	c.Max("min_margin_bits_x10_neg", -int64(10*(math.Log2(bound)-st.MaxLog2)))
+	if st.MaxLog2 <= math.Log2(bound) {
+		c.Max("max_accepted_opnoise_log2_x10", int64(10*st.MaxLog2))
+		if st.MaxLog2 >= 0 { // exact results (no key switch) have no margin to speak of
+			c.Max("max_1000_plus_10x_log2_noise_over_bound", 1000+int64(10*(st.MaxLog2-math.Log2(bound))))
+		}
+		c.Max("max_10000_plus_10x_log2_bound_over_halfQ", 10000+int64(10*(math.Log2(bound)-log2Q(e.cfg.Q[:lvl+1])+1)))
+	}
 	return c.Check(st.MaxLog2 <= math.Log2(bound), "C11|"+api+"|wrong-phase", func() string {
 		return fmt.Sprintf("%s: |phase(out) - model(phase(in))|_inf = 2^%.1f > worst-case bound 2^%.1f (log2 Q_level = %.1f)", what(), st.MaxLog2, math.Log2(bound), log2Q(e.cfg.Q[:lvl+1]))
 	})
@@ -141,6 +160,10 @@ func (e *env) checkPhase(c *eng.Ctx, api string, ctIn, ctOut *rlwe.Ciphertext, w
 
 // checkSlots compares the decoded output with the slot model on the masked slots.
 func (e *env) checkSlots(c *eng.Ctx, api string, ctOut *rlwe.Ciphertext, expC []complex128, expU []uint64, mask []bool, tol float64, what func() string) {
+	if ctOut.MetaData == nil || !ctOut.MetaData.Equal(e.inMeta) {
+		c.Count("slot_checks_skipped_metadata_already_flagged", 1)
+		return // decoding depends on scale and dimensions; their loss is reported by the metadata check
+	}
 	switch e.cfg.Scheme {
 	case "ckks":
 		if tol > maxTol {
